@@ -15,7 +15,7 @@ use serde_json::{json, Value as J};
 use std::sync::Arc;
 use vh::eng::*;
 use vh::*;
-use varpulis_core::ast::{Expr, Stmt, StreamOp};
+use varpulis_core::ast::{Expr, Program, Stmt, StreamOp};
 use varpulis_core::Value;
 use varpulis_runtime::engine::evaluator::eval_filter_expr;
 use varpulis_runtime::event::Event;
@@ -84,6 +84,14 @@ fn boundary_values() -> Vec<BV> {
             });
         }
         push(Some(Value::array(big)), "array 64 mixed int/str/float/NaN");
+    }
+    {
+        // 40 floats, every 5th NaN (a sensor array with gaps)
+        let v: Vec<Value> = (0..40).map(|k| if k % 5 == 2 { Value::Float(f64::NAN) } else { Value::Float(((k * 7) % 11) as f64) }).collect();
+        push(Some(Value::array(v)), "array 40 floats, every 5th NaN");
+        // 30 elements alternating int / string
+        let v: Vec<Value> = (0..30).map(|k| if k % 2 == 0 { Value::Int(30 - k) } else { s(if k % 4 == 1 { "b" } else { "a" }) }).collect();
+        push(Some(Value::array(v)), "array 30 alternating int/str");
     }
     push(Some(mk_map(vec![])), "map {}");
     push(Some(mk_map(vec![("a", Value::Int(1))])), "map {a:1}");
@@ -289,6 +297,8 @@ fn parse_expr(text: &str) -> Result<Option<Expr>, String> {
     let r = catch(std::panic::AssertUnwindSafe(|| varpulis_parser::parse(&src)));
     match r {
         Err(p) => Err(p),
+        // parse() joins its parser thread and reports a panic in it as this parse error
+        Ok(Err(e)) if format!("{}", e).contains("Parser stack overflow") => Err(format!("{}", e)),
         Ok(Err(_)) => Ok(None),
         Ok(Ok(prog)) => {
             for st in &prog.statements {
@@ -307,6 +317,104 @@ fn parse_expr(text: &str) -> Result<Option<Expr>, String> {
             Ok(None)
         }
     }
+}
+
+/// Result of handing one expression text to the real parser.
+#[derive(Clone)]
+enum Parsed {
+    Ok(Expr),
+    Rejected,
+    Panicked(String),
+}
+
+/// Parse many expressions with ONE call of the real parser (`.emit(u: uid, r0: .., r1: .., ...)`): the parser
+/// spawns a thread per call, which dominates the run time otherwise. If the batch as a whole is rejected or
+/// the parser panics, every text is parsed on its own so that the verdict per text is exact.
+fn parse_many(texts: &[String]) -> Vec<Parsed> {
+    let single = |t: &String| match parse_expr(t) {
+        Ok(Some(e)) => Parsed::Ok(e),
+        Ok(None) => Parsed::Rejected,
+        Err(p) => Parsed::Panicked(p),
+    };
+    if texts.len() == 1 {
+        return vec![single(&texts[0])];
+    }
+    let fields: Vec<String> = texts.iter().enumerate().map(|(i, t)| format!("r{}: {}", i, t)).collect();
+    let src = format!("stream M = E.emit(u: uid, {})\n", fields.join(", "));
+    if let Ok(Ok(prog)) = catch(std::panic::AssertUnwindSafe(|| varpulis_parser::parse(&src))) {
+        let mut out: Vec<Option<Expr>> = vec![None; texts.len()];
+        for st in &prog.statements {
+            if let Stmt::StreamDecl { ops, .. } = &st.node {
+                for o in ops {
+                    if let StreamOp::Emit { fields, .. } = o {
+                        for f in fields {
+                            if let Some(i) = f.name.strip_prefix('r').and_then(|x| x.parse::<usize>().ok()) {
+                                if i < out.len() {
+                                    out[i] = Some(f.value.clone());
+                                }
+                            }
+                        }
+                    }
+                }
+            }
+        }
+        if out.iter().all(|o| o.is_some()) {
+            return out.into_iter().map(|o| Parsed::Ok(o.unwrap())).collect();
+        }
+    }
+    texts.iter().map(single).collect()
+}
+
+/// The three engine programs with a placeholder expression, parsed once per thread; an expression that the
+/// parser produced (see parse_many) is put in place of the placeholder, which gives exactly the program the
+/// parser would have produced for the full text (the constant folder treats .where/.emit/.process alike).
+struct Templates {
+    wher: Program,
+    emit: Program,
+    process: Program,
+}
+impl Templates {
+    fn new() -> Templates {
+        let p = |l: Lane| varpulis_parser::parse(&l.program("424242")).expect("template program");
+        Templates { wher: p(Lane::Where), emit: p(Lane::Emit), process: p(Lane::Process) }
+    }
+    fn program(&self, lane: Lane, expr: &Expr) -> Program {
+        let mut p = match lane {
+            Lane::Where => self.wher.clone(),
+            Lane::Emit => self.emit.clone(),
+            Lane::Process => self.process.clone(),
+        };
+        for st in p.statements.iter_mut() {
+            if let Stmt::StreamDecl { ops, .. } = &mut st.node {
+                for o in ops.iter_mut() {
+                    match (lane, o) {
+                        (Lane::Where, StreamOp::Where(e)) => *e = expr.clone(),
+                        (Lane::Process, StreamOp::Process(e)) => *e = expr.clone(),
+                        (Lane::Emit, StreamOp::Emit { fields, .. }) => {
+                            for f in fields.iter_mut() {
+                                if f.name == "r" {
+                                    f.value = expr.clone();
+                                }
+                            }
+                        }
+                        _ => {}
+                    }
+                }
+            }
+        }
+        p
+    }
+}
+
+fn load_program(p: &Program) -> Option<Loaded> {
+    catch(std::panic::AssertUnwindSafe(|| {
+        let (tx, rx) = tokio::sync::mpsc::channel::<Event>(100_000);
+        let mut engine = varpulis_runtime::engine::Engine::new(tx);
+        engine.load(p).ok()?;
+        Some(Loaded { engine, rx })
+    }))
+    .ok()
+    .flatten()
 }
 
 fn mk_event(uid: i64, vals: &[&BV]) -> Event {
@@ -347,16 +455,16 @@ impl Lane {
 }
 const LANES: [Lane; 3] = [Lane::Where, Lane::Emit, Lane::Process];
 
-/// One engine per (expression text, lane); reloaded after a panic (its state is then suspect).
+/// One engine per (expression, lane); reloaded after a panic (its state is then suspect).
 struct EngLane {
     lane: Lane,
-    prog: String,
+    prog: Program,
     loaded: Option<Loaded>,
 }
 impl EngLane {
-    fn new(lane: Lane, text: &str) -> EngLane {
-        let prog = lane.program(text);
-        let loaded = catch(std::panic::AssertUnwindSafe(|| load(&prog))).ok().and_then(|r| r.ok());
+    fn new(lane: Lane, t: &Templates, expr: &Expr) -> EngLane {
+        let prog = t.program(lane, expr);
+        let loaded = load_program(&prog);
         EngLane { lane, prog, loaded }
     }
     /// Ok(()) processed; Err(Some(..)) panicked; Err(None) engine unavailable/returned an error
@@ -374,7 +482,7 @@ impl EngLane {
             Ok(Err(_)) => Err(None),
             Err(m) => {
                 let site = site_of(&last_panic_location());
-                self.loaded = catch(std::panic::AssertUnwindSafe(|| load(&self.prog))).ok().and_then(|r| r.ok());
+                self.loaded = load_program(&self.prog);
                 Err(Some((m, site)))
             }
         }
@@ -389,44 +497,43 @@ fn event_witness(vals: &[&BV]) -> J {
     J::Object(m)
 }
 
-fn report_panic(out: &mut Partial, opname: &str, types: &[&str], lane: &str, text: &str, vals: &[&BV], msg: &str, site: &str) {
+fn event_values(vals: &[&BV]) -> J {
+    let mut m = serde_json::Map::new();
+    for (i, b) in vals.iter().enumerate() {
+        m.insert(FIELD_NAMES[i].to_string(), match &b.v { Some(v) => json!(format!("{:?}", v)), None => json!("<field absent>") });
+    }
+    J::Object(m)
+}
+
+#[allow(clippy::too_many_arguments)]
+fn report_panic(out: &mut Partial, opname: &str, types: &[&str], lane: &str, text: &str, culprit: Option<&str>, vals: &[&BV], msg: &str, site: &str) {
     let sig = format!("{}{}/{}/{}/{}", if is_builtin(opname) { "fn:" } else { "" }, opname, types.join(","), panic_kind(msg), site);
     out.add(&format!("panics_{}", lane), 1);
     out.violation(
         &sig,
-        &format!("evaluating `{}` panicked: {}", text, msg),
+        &format!("evaluating `{}` panicked: {}", culprit.unwrap_or(text), msg),
         json!({
             "lane": lane,
             "expression": text,
-            "program": match lane { "where" => Lane::Where.program(text), "emit" => Lane::Emit.program(text), "process" => Lane::Process.program(text), _ => format!("eval_filter_expr(parse(`{}`), event, SequenceContext::empty())", text) },
+            "innermost_panicking_subexpression": culprit,
+            "program": match lane { "where" => Lane::Where.program(text), "emit" => Lane::Emit.program(text), "process" => Lane::Process.program(text), _ => format!("eval_filter_expr(<parsed `{}`>, event, SequenceContext::empty())", text) },
             "event_fields": event_witness(vals),
+            "event_field_values": event_values(vals),
             "panic": msg,
             "site": site,
         }),
     );
 }
 
-/// Unit lane: one operator, operands are the fields a, b, c.
-fn run_unit(specs: &[OpSpec], k: usize, tuples: &[Vec<usize>], bvs: &[BV], rt: &tokio::runtime::Runtime, out: &mut Partial) {
-    let spec = &specs[k];
+fn unit_text(spec: &OpSpec) -> String {
     let operands: Vec<String> = (0..spec.arity).map(|i| FIELD_NAMES[i].to_string()).collect();
-    let text = render(spec, &operands);
-    let expr = match parse_expr(&text) {
-        Ok(Some(e)) => e,
-        Ok(None) => {
-            out.add("unit_expressions_rejected_by_parser", 1);
-            if out.samples.len() < 3 {
-                out.sample(json!({"rejected_by_parser": text}));
-            }
-            return;
-        }
-        Err(p) => {
-            out.add("parser_panics", 1);
-            out.sample(json!({"parser_panicked_on": text, "panic": p}));
-            return;
-        }
-    };
-    let mut lanes: Vec<EngLane> = LANES.iter().map(|l| EngLane::new(*l, &text)).collect();
+    render(spec, &operands)
+}
+
+/// Unit lane: one operator, operands are the fields a, b, c.
+fn run_unit(spec: &OpSpec, expr: &Expr, tuples: &[Vec<usize>], bvs: &[BV], tpl: &Templates, rt: &tokio::runtime::Runtime, out: &mut Partial) {
+    let text = unit_text(spec);
+    let mut lanes: Vec<EngLane> = LANES.iter().map(|l| EngLane::new(*l, tpl, expr)).collect();
     for l in &lanes {
         if l.loaded.is_none() {
             out.add("engine_programs_rejected", 1);
@@ -438,66 +545,92 @@ fn run_unit(specs: &[OpSpec], k: usize, tuples: &[Vec<usize>], bvs: &[BV], rt: &
         let e = mk_event(ti as i64 + 1, &vals);
         out.eval();
         out.nontrivial(&(spec.name, t.clone()));
-        match api_eval(&expr, &e) {
+        match api_eval(expr, &e) {
             Ok(v) => {
                 if out.samples.len() < 2 && v.is_some() && ti % 7 == 3 {
                     out.sample(json!({"expression": text, "event_fields": event_witness(&vals), "value": v.as_ref().map(val_json)}));
                 }
             }
-            Err((m, site)) => report_panic(out, spec.name, &types, "api", &text, &vals, &m, &site),
+            Err((m, site)) => report_panic(out, spec.name, &types, "api", &text, None, &vals, &m, &site),
         }
         for l in lanes.iter_mut() {
             out.eval();
             match l.feed(rt, &e) {
                 Ok(()) => {}
                 Err(None) => out.add("engine_feed_unavailable", 1),
-                Err(Some((m, site))) => report_panic(out, spec.name, &types, l.lane.name(), &text, &vals, &m, &site),
+                Err(Some((m, site))) => report_panic(out, spec.name, &types, l.lane.name(), &text, None, &vals, &m, &site),
             }
+        }
+    }
+}
+
+fn subtrees<'a>(x: &'a X, out: &mut Vec<&'a X>) {
+    out.push(x);
+    if let X::Op(_, ch) = x {
+        for c in ch {
+            subtrees(c, out);
         }
     }
 }
 
 /// Find the innermost sub-expression that panics on `e` while none of its operands does.
-/// Returns (operator name, operand types, text of the culprit, message, site).
-fn minimise(specs: &[OpSpec], x: &X, e: &Event) -> Option<(String, Vec<String>, String, String, String)> {
-    let text = x.txt(specs);
-    let expr = parse_expr(&text).ok()??;
-    let (msg, site) = match api_eval(&expr, e) {
-        Err(p) => p,
-        Ok(_) => return None,
-    };
-    if let X::Op(k, ch) = x {
-        for c in ch {
-            if let Some(r) = minimise(specs, c, e) {
-                return Some(r);
+/// Returns (operator name, operand types, text of the culprit).
+fn minimise(specs: &[OpSpec], x: &X, e: &Event) -> Option<(String, Vec<String>, String)> {
+    let mut nodes = vec![];
+    subtrees(x, &mut nodes);
+    let texts: Vec<String> = nodes.iter().map(|n| n.txt(specs)).collect();
+    let parsed = parse_many(&texts);
+    // evaluation result per node: Some(Ok(type)) / Some(Err) panicked / None not evaluable
+    let res: Vec<Option<Result<&'static str, ()>>> = parsed
+        .iter()
+        .map(|p| match p {
+            Parsed::Ok(ex) => Some(api_eval(ex, e).map(|v| type_of(&v)).map_err(|_| ())),
+            _ => None,
+        })
+        .collect();
+    // innermost = last node in preorder that panics and whose children do not
+    fn child_idx(nodes: &[&X], i: usize) -> Vec<usize> {
+        let mut out = vec![];
+        if let X::Op(_, ch) = nodes[i] {
+            let mut k = i + 1;
+            for c in ch {
+                out.push(k);
+                let mut v = vec![];
+                subtrees(c, &mut v);
+                k += v.len();
             }
         }
-        let types: Vec<String> = ch
-            .iter()
-            .map(|c| {
-                let v = parse_expr(&c.txt(specs)).ok().flatten().and_then(|ce| api_eval(&ce, e).ok()).flatten();
-                type_of(&v).to_string()
-            })
-            .collect();
-        Some((specs[*k].name.to_string(), types, text, msg, site))
-    } else {
-        Some(("leaf".to_string(), vec![], text, msg, site))
+        out
     }
+    for i in (0..nodes.len()).rev() {
+        if res[i] == Some(Err(())) {
+            let kids = child_idx(&nodes, i);
+            if kids.iter().all(|k| res[*k] != Some(Err(()))) {
+                let name = match nodes[i] {
+                    X::Op(k, _) => specs[*k].name.to_string(),
+                    _ => "leaf".to_string(),
+                };
+                let types = kids.iter().map(|k| match res[*k] { Some(Ok(t)) => t.to_string(), _ => "unknown".to_string() }).collect();
+                return Some((name, types, texts[i].clone()));
+            }
+        }
+    }
+    None
 }
 
-fn run_nested(specs: &[OpSpec], x: &X, vals: &[&BV], uid: i64, rt: &tokio::runtime::Runtime, out: &mut Partial) {
+fn run_nested(specs: &[OpSpec], x: &X, parsed: &Parsed, vals: &[&BV], uid: i64, tpl: &Templates, rt: &tokio::runtime::Runtime, out: &mut Partial) {
     let text = x.txt(specs);
-    let expr = match parse_expr(&text) {
-        Ok(Some(e)) => e,
-        Ok(None) => {
+    let expr = match parsed {
+        Parsed::Ok(e) => e,
+        Parsed::Rejected => {
             out.add("nested_expressions_rejected_by_parser", 1);
             return;
         }
-        Err(p) => {
+        Parsed::Panicked(p) => {
             // a panic inside the parser (constant folder) is not an evaluation on an event: counted, not a C11 verdict
             out.add("parser_panics", 1);
             if out.counters.get("parser_panics").copied().unwrap_or(0) <= 2 {
-                out.sample(json!({"parser_panicked_on": text, "panic": p, "site": site_of(&last_panic_location())}));
+                out.sample(json!({"parser_panicked_on": text, "panic": p}));
             }
             return;
         }
@@ -505,30 +638,27 @@ fn run_nested(specs: &[OpSpec], x: &X, vals: &[&BV], uid: i64, rt: &tokio::runti
     let e = mk_event(uid, vals);
     out.eval();
     out.add("nested_expressions", 1);
-    let mut culprit: Option<(String, Vec<String>)> = None;
-    if let Err((m, site)) = api_eval(&expr, &e) {
-        let (opname, types, ctext) = match minimise(specs, x, &e) {
-            Some((o, t, c, _, _)) => (o, t, c),
-            None => ("unminimised".to_string(), vec![], text.clone()),
-        };
+    let mut culprit: Option<(String, Vec<String>, String)> = None;
+    if let Err((m, site)) = api_eval(expr, &e) {
+        let (opname, types, ctext) = minimise(specs, x, &e).unwrap_or(("unminimised".to_string(), vec![], text.clone()));
         let tys: Vec<&str> = types.iter().map(|s| s.as_str()).collect();
-        report_panic(out, &opname, &tys, "api", &format!("{}   [culprit: {}]", text, ctext), vals, &m, &site);
-        culprit = Some((opname, types));
+        report_panic(out, &opname, &tys, "api", &text, Some(&ctext), vals, &m, &site);
+        culprit = Some((opname, types, ctext));
     }
     for lane in LANES {
         out.eval();
-        let mut l = EngLane::new(lane, &text);
+        let mut l = EngLane::new(lane, tpl, expr);
         if l.loaded.is_none() {
             out.add("engine_programs_rejected", 1);
             continue;
         }
         if let Err(Some((m, site))) = l.feed(rt, &e) {
             match &culprit {
-                Some((o, t)) => {
+                Some((o, t, c)) => {
                     let tys: Vec<&str> = t.iter().map(|s| s.as_str()).collect();
-                    report_panic(out, o, &tys, lane.name(), &text, vals, &m, &site)
+                    report_panic(out, o, &tys, lane.name(), &text, Some(c), vals, &m, &site)
                 }
-                None => report_panic(out, &format!("engine-only-{}", lane.name()), &[], lane.name(), &text, vals, &m, &site),
+                None => report_panic(out, &format!("engine-only-{}", lane.name()), &[], lane.name(), &text, None, vals, &m, &site),
             }
         }
     }
@@ -549,7 +679,8 @@ const CHILD_CASES: [(&str, &str); 6] = [
 fn child_main(lane: &str, text: &str) -> i32 {
     let text = text.to_string();
     let lane = lane.to_string();
-    let h = std::thread::Builder::new().stack_size(8 << 20).spawn(move || {
+    let h = std::thread::Builder::new().stack_size(2 << 20).spawn(move || {
+        OURS.with(|o| o.set(true));
         let e = ev("E", ts_ms(1), &[("uid", Value::Int(1)), ("a", mk_map(vec![("k", Value::Int(1))]))]);
         let r = catch(std::panic::AssertUnwindSafe(|| {
             if lane == "api" {
@@ -590,26 +721,33 @@ fn child_main(lane: &str, text: &str) -> i32 {
     }
 }
 
-fn run_children(rep: &mut Report) {
+fn run_children() -> Partial {
+    let mut part = Partial::default();
+    let rep = &mut part;
     use std::process::{Command, Stdio};
     let exe = match std::env::current_exe() {
         Ok(e) => e,
         Err(e) => {
             rep.inconclusive(&format!("cannot locate own executable for the child lane: {}", e));
-            return;
+            return part;
         }
     };
+    // start all children first (they are independent), then collect them one by one
+    let mut started = vec![];
     for (kind, text) in CHILD_CASES {
         for lane in ["api", "where", "emit", "process"] {
-            rep.eval();
-            let child = Command::new(&exe).args(["--child", lane, text]).stdout(Stdio::piped()).stderr(Stdio::piped()).spawn();
-            let mut child = match child {
-                Ok(c) => c,
+            match Command::new(&exe).args(["--child", lane, text]).stdout(Stdio::piped()).stderr(Stdio::piped()).spawn() {
+                Ok(c) => started.push((kind, text, lane, c)),
                 Err(e) => {
                     rep.inconclusive(&format!("cannot spawn child: {}", e));
-                    return;
+                    return part;
                 }
-            };
+            }
+        }
+    }
+    {
+        for (kind, text, lane, mut child) in started {
+            rep.eval();
             // bounded wait: 60 s
             let t0 = std::time::Instant::now();
             let status = loop {
@@ -668,11 +806,33 @@ fn run_children(rep: &mut Report) {
             }
         }
     }
+    part
+}
+
+thread_local! {
+    /// true in threads started by this harness; the parser runs every parse in a thread of its own
+    static OURS: std::cell::Cell<bool> = const { std::cell::Cell::new(false) };
+}
+static FOREIGN_PANICS: std::sync::atomic::AtomicU64 = std::sync::atomic::AtomicU64::new(0);
+
+/// A panic inside the parser's own thread (constant folder) is turned by `parse()` into a parse error;
+/// keep its message off stderr and count it.
+fn install_foreign_thread_filter() {
+    let prev = std::panic::take_hook();
+    std::panic::set_hook(Box::new(move |info| {
+        if OURS.with(|o| o.get()) {
+            prev(info);
+        } else {
+            FOREIGN_PANICS.fetch_add(1, std::sync::atomic::Ordering::Relaxed);
+        }
+    }));
 }
 
 fn main() {
     let args = Args::parse();
     install_quiet_panic_hook();
+    install_foreign_thread_filter();
+    OURS.with(|o| o.set(true));
     if let Some(pos) = args.extra.iter().position(|a| a == "--child") {
         let lane = args.extra.get(pos + 1).cloned().unwrap_or_default();
         let text = args.extra.get(pos + 2).cloned().unwrap_or_default();
@@ -684,6 +844,31 @@ fn main() {
     rep.assume("the harness binary is built with overflow-checks on (dev profile of /verif/harness), as a debug build of the product would be; `MIN / -1`, `MIN % -1` panic in every profile");
     rep.assume("a panic inside varpulis_parser::parse (constant folder) is counted as parser_panics, not as a C11 violation: the statement is about evaluating expressions the parser accepted");
     rep.assume("range sizes are excluded: range()/.. are only used with the constants 0 and 3");
+    if let Some(text) = args.opt("--expr") {
+        // debugging aid: c11 --expr "sort(a)" --a "array 40 floats, every 5th NaN" [--b <label>] [--c <label>]
+        let bvs = boundary_values();
+        let find = |k: &str| {
+            let want = args.opt(k).unwrap_or_else(|| "missing".to_string());
+            bvs.iter().find(|b| b.label == want).cloned().unwrap_or(BV { v: None, label: "missing".into() })
+        };
+        let (a, b, c) = (find("--a"), find("--b"), find("--c"));
+        let vals = vec![&a, &b, &c];
+        let e = mk_event(1, &vals);
+        let tpl = Templates::new();
+        let rt = rt();
+        match parse_expr(&text) {
+            Ok(Some(x)) => {
+                println!("parsed: {:?}", x);
+                println!("api: {:?}", api_eval(&x, &e).map(|v| v.map(|v| format!("{:?}", v))));
+                for lane in LANES {
+                    let mut l = EngLane::new(lane, &tpl, &x);
+                    println!("{}: {:?}", lane.name(), l.feed(&rt, &e));
+                }
+            }
+            other => println!("parser: {:?}", other.map(|_| "rejected")),
+        }
+        std::process::exit(0);
+    }
     if let Some(path) = args.replay.clone() {
         let doc: J = serde_json::from_str(&std::fs::read_to_string(&path).expect("replay file")).expect("json");
         let w = &doc["witness"];
@@ -697,35 +882,67 @@ fn main() {
         println!("expression: {}\nevent: {}\napi lane now: {:?}", text, event_json(&e), r.map(|r| r.map(|v| v.as_ref().map(val_json))));
         std::process::exit(0);
     }
-    run_children(&mut rep);
+    // child lane runs beside the in-process lanes
+    let children = std::thread::spawn(|| {
+        OURS.with(|o| o.set(true));
+        run_children()
+    });
     let threads = ncpu();
     let thorough = args.thorough();
     let triples = args.pick(3000usize, 0usize);
-    let nested = args.pick(6000usize, 400_000usize);
+    let nested = args.opt("--nested").and_then(|x| x.parse().ok()).unwrap_or(args.pick(8000usize, 400_000usize));
+    let triples = args.opt("--triples").and_then(|x| x.parse().ok()).unwrap_or(triples);
     let seed = args.seed ^ 0xC11;
     let parts = parallel(threads, seed, move |ti, mut rng| {
+        OURS.with(|o| o.set(true));
         let mut out = Partial::default();
         let rt = rt();
         let specs = ops();
         let bvs = boundary_values();
         let n = bvs.len();
-        // unit lane: tasks = (op, first operand) -> all tuples with that first operand
+        let tpl = Templates::new();
+        // unit lane: every operator template parsed in one go
+        let texts: Vec<String> = specs.iter().map(unit_text).collect();
+        let parsed = parse_many(&texts);
         let mut task = 0usize;
         for (k, spec) in specs.iter().enumerate() {
+            let expr = match &parsed[k] {
+                Parsed::Ok(e) => e,
+                Parsed::Rejected => {
+                    if ti == 0 {
+                        out.add("unit_expressions_rejected_by_parser", 1);
+                        out.sample(json!({"rejected_by_parser": texts[k]}));
+                    }
+                    continue;
+                }
+                Parsed::Panicked(p) => {
+                    if ti == 0 {
+                        out.add("parser_panics", 1);
+                        out.sample(json!({"parser_panicked_on": texts[k], "panic": p}));
+                    }
+                    continue;
+                }
+            };
             match spec.arity {
                 1 => {
                     task += 1;
                     if task % threads == ti {
                         let tuples: Vec<Vec<usize>> = (0..n).map(|i| vec![i]).collect();
-                        run_unit(&specs, k, &tuples, &bvs, &rt, &mut out);
+                        run_unit(spec, expr, &tuples, &bvs, &tpl, &rt, &mut out);
                     }
                 }
                 2 => {
-                    for i in 0..n {
+                    // 4 chunks of first operands per operator
+                    for c in 0..4 {
                         task += 1;
                         if task % threads == ti {
-                            let tuples: Vec<Vec<usize>> = (0..n).map(|j| vec![i, j]).collect();
-                            run_unit(&specs, k, &tuples, &bvs, &rt, &mut out);
+                            let mut tuples: Vec<Vec<usize>> = vec![];
+                            for i in (0..n).filter(|i| i % 4 == c) {
+                                for j in 0..n {
+                                    tuples.push(vec![i, j]);
+                                }
+                            }
+                            run_unit(spec, expr, &tuples, &bvs, &tpl, &rt, &mut out);
                         }
                     }
                 }
@@ -740,7 +957,7 @@ fn main() {
                                         tuples.push(vec![i, j, l]);
                                     }
                                 }
-                                run_unit(&specs, k, &tuples, &bvs, &rt, &mut out);
+                                run_unit(spec, expr, &tuples, &bvs, &tpl, &rt, &mut out);
                             }
                         }
                     } else {
@@ -752,25 +969,15 @@ fn main() {
                             let first = if srng.chance(1, 2) { *srng.pick(&containers) } else { srng.below(n) };
                             all.push(vec![first, srng.below(n), srng.below(n)]);
                         }
-                        for chunk in all.chunks(200) {
+                        for chunk in all.chunks(500) {
                             task += 1;
                             if task % threads == ti {
-                                run_unit(&specs, k, chunk, &bvs, &rt, &mut out);
+                                run_unit(spec, expr, chunk, &bvs, &tpl, &rt, &mut out);
                             }
                         }
                     }
                 }
             }
-        }
-        // nested lane
-        let usable: Vec<usize> = (0..specs.len()).filter(|k| specs[*k].name != "range-small").collect();
-        let per_thread = nested / threads + 1;
-        for i in 0..per_thread {
-            let depth = 2 + rng.below(2);
-            let x = gen_x(&mut rng, depth, &specs, &usable);
-            let picks: Vec<usize> = (0..3).map(|_| rng.below(n)).collect();
-            let vals: Vec<&BV> = picks.iter().map(|p| &bvs[*p]).collect();
-            run_nested(&specs, &x, &vals, i as i64 + 1, &rt, &mut out);
         }
         if ti == 0 {
             out.add("boundary_values", n as u64);
@@ -778,6 +985,55 @@ fn main() {
         }
         out
     });
+    // merge the unit lane first so that the stored witnesses per signature are the minimal ones
+    rep.set("unit_lane_wall_s", json!(rep.start.elapsed().as_secs_f64()));
+    for p in parts {
+        rep.merge(p);
+    }
+    let parts = parallel(threads, seed ^ 0x2E57ED, move |_ti, mut rng| {
+        OURS.with(|o| o.set(true));
+        let mut out = Partial::default();
+        let rt = rt();
+        let specs = ops();
+        let bvs = boundary_values();
+        let n = bvs.len();
+        let tpl = Templates::new();
+        let texts: Vec<String> = specs.iter().map(unit_text).collect();
+        let parsed = parse_many(&texts);
+        // nested lane: batches of 40 expressions per parser call
+        // operators whose plain template the parser rejects (counted above) are left out of the nested generator
+        let usable: Vec<usize> = (0..specs.len()).filter(|k| specs[*k].name != "range-small" && matches!(parsed[*k], Parsed::Ok(_))).collect();
+        let per_thread = nested / threads + 1;
+        let mut done = 0usize;
+        while done < per_thread {
+            let m = 40.min(per_thread - done);
+            let xs: Vec<X> = (0..m)
+                .map(|_| {
+                    let depth = 2 + rng.below(2);
+                    gen_x(&mut rng, depth, &specs, &usable)
+                })
+                .collect();
+            let texts: Vec<String> = xs.iter().map(|x| x.txt(&specs)).collect();
+            let parsed = parse_many(&texts);
+            out.add("parser_calls_nested", 1);
+            for (i, x) in xs.iter().enumerate() {
+                let picks: Vec<usize> = (0..3).map(|_| rng.below(n)).collect();
+                let vals: Vec<&BV> = picks.iter().map(|p| &bvs[*p]).collect();
+                run_nested(&specs, x, &parsed[i], &vals, (done + i) as i64 + 1, &tpl, &rt, &mut out);
+            }
+            done += m;
+        }
+        out
+    });
+    rep.set("unit_plus_nested_wall_s", json!(rep.start.elapsed().as_secs_f64()));
+    rep.add("panics_inside_parser_threads", FOREIGN_PANICS.load(std::sync::atomic::Ordering::Relaxed));
+    match children.join() {
+        Ok(p) => {
+            rep.set("all_lanes_wall_s", json!(rep.start.elapsed().as_secs_f64()));
+            rep.merge(p)
+        }
+        Err(_) => rep.inconclusive("child lane thread failed"),
+    }
     for p in parts {
         rep.merge(p);
     }
